@@ -22,9 +22,14 @@ type MountType struct {
 	root string
 }
 
+type deviceSubroot struct {
+	root, mountpoint string
+}
+
 type deviceType struct {
 	name string
 	roots []string
+	subroots []deviceSubroot
 }
 
 type Mounts struct {
@@ -143,12 +148,14 @@ func ProbeMounts() (Mounts, error) {
 		var device *deviceType
 		device, ok := devices[st_dev]
 		if !ok {
-			device_list = append(device_list, deviceType{fsname, []string{}})
+			device_list = append(device_list, deviceType{name: fsname, roots: []string{}})
 			device = &device_list[len(device_list) - 1]
 			devices[st_dev] = device
 		}
 		if root == "/" {
 			device.roots = append(device.roots, mtpoint)
+		} else {
+			device.subroots = append(device.subroots, deviceSubroot{root, mtpoint})
 		}
 
 	}
@@ -189,6 +196,16 @@ func (m Mounts) GetMountSources(mnt *MountType) []string {
 			src := path.Join(mp, root)
 			if src != mnt.Mountpoint {
 				out = append(out, src)
+			}
+		}
+		// The same directory as seen through mounts of subtrees of the file system
+		// (bind mounts, subvolumes)
+		for _, sr := range device.subroots {
+			if mnt.root == sr.root || strings.HasPrefix(mnt.root, sr.root + "/") {
+				src := path.Join(sr.mountpoint, mnt.root[len(sr.root):])
+				if src != mnt.Mountpoint {
+					out = append(out, src)
+				}
 			}
 		}
 	}
